@@ -156,6 +156,7 @@ func (q *Queue[T]) BlockingAdd(ctx context.Context, item T) error {
 		case <-ctx.Done():
 			return ctx.Err()
 		default:
+			verifYield("pubsub.wait.before-cond-wait")
 			cond.Wait()
 		}
 	}
@@ -208,6 +209,7 @@ func (q *Queue[T]) unsafeWaitWhileEmpty(ctx context.Context) error {
 		case <-ctx.Done():
 			return ctx.Err()
 		default:
+			verifYield("pubsub.wait.before-cond-wait")
 			q.nempty.Wait()
 		}
 	}
@@ -232,6 +234,7 @@ func (q *Queue[T]) waitForNew(ctx context.Context) error {
 		case <-ctx.Done():
 			return ctx.Err()
 		default:
+			verifYield("pubsub.wait.before-cond-wait")
 			q.nupdates.Wait()
 		}
 	}
@@ -373,6 +376,7 @@ func (q *Queue[T]) Producer() fun.Producer[T] {
 			}
 
 			q.mu.Unlock()
+			verifYield("pubsub.Queue.Producer.unlocked")
 			if err := q.waitForNew(ctx); err != nil {
 				return o, err
 			}
